@@ -40,7 +40,7 @@ package util
 //@   ensures s.moduleIgnores == old(s.moduleIgnores)
 
 //@ func IgnoreSet.Contains
-//@   props C16 C10 C08 C07
+//@   props C16 C10 C08 C07 C01 C02 C03 C04 C05 C11
 //@   nilrecv
 //@   requires s != nil ==> isetInv(s)
 //@   ensures result == (s != nil && s.Initialized && suppressed(s, code, pos))
@@ -52,7 +52,7 @@ package util
 //@   loop 3 invariant forall k int :: 0 <= k && k < $i ==> !(s.Markers[indices[k]].StartPos <= pos && pos <= s.Markers[indices[k]].EndPos)
 
 //@ func IgnoreSet.AddModuleIgnore
-//@   props C16 C12 C10 C08
+//@   props C16 C12 C10 C08 C11
 //@   requires isetInv(s)
 //@   assigns s.Markers, s.CodeIndex, s.MinPos, s.MaxPos, s.Initialized, s.moduleIgnores
 //@   ensures s.Initialized && isetInv(s)
@@ -77,7 +77,7 @@ package util
 // Add appends one scoped suppression (codes, start, end). The start must be a valid position (>= 1): NoPos is
 // the structure's own "no marker yet" sentinel for MinPos.
 //@ func IgnoreSet.Add
-//@   props C16 C12 C10 C07
+//@   props C16 C12 C10 C07 C11
 //@   requires isetInv(s) && annotation != nil && annotation.GetStartPos() >= 1
 //@   assigns s.Markers, s.CodeIndex, s.MinPos, s.MaxPos, s.Initialized, s.CodeIndex[all]
 //@   let n0 = old(s.Initialized) ? old(len(s.Markers)) : 0
@@ -103,7 +103,7 @@ package util
 //@   assigns nothing
 
 //@ func TypesMap.Add
-//@   props C01 C03 C09 C12 C10
+//@   props C01 C03 C09 C12 C10 C11
 //@   requires tmWF(m)
 //@   assigns m[all], m[pkgPath][all]
 //@   ensures tmWF(m)
@@ -111,7 +111,7 @@ package util
 //@   ensures forall p string :: indom(m, p) ==> ((old(indom(m, p)) && m[p] == old(m[p])) || fresh(m[p]))
 
 //@ func TypesMap.Contains
-//@   props C01 C03 C09 C10
+//@   props C01 C03 C09 C10 C11
 //@   ensures result == tmHas(m, pkgPath, typeName)
 //@   assigns nothing
 
@@ -133,7 +133,7 @@ package util
 //@   assigns nothing
 
 //@ func TypeAssociationRegistry.Add
-//@   props C01 C02 C03 C09 C12 C10
+//@   props C01 C02 C03 C09 C12 C10 C11
 //@   requires tarWF(tar)
 //@   assigns tar[all], tar[pkgPath][all]
 //@   ensures tarWF(tar)
@@ -144,7 +144,7 @@ package util
 //@   ensures forall p string :: indom(tar, p) ==> ((old(indom(tar, p)) && tar[p] == old(tar[p])) || fresh(tar[p]))
 
 //@ func TypeAssociationRegistry.Match
-//@   props C01 C02 C03 C09 C10
+//@   props C01 C02 C03 C09 C10 C11
 //@   ensures result == contains(tarList(tar, pkgPath, expectedType), associatedName)
 //@   assigns nothing
 //@   loop 1 invariant forall k int :: 0 <= k && k < $i ==> items[k] != associatedName
@@ -215,27 +215,27 @@ package util
 //@   ensures result == (t != nil && contains(t.TypesAttachments[typename].MethodsAttachments[method], attachment))
 //@   assigns nothing
 //@ func AttachmentsMap.HasPkgAttachment
-//@   props C04 C10
+//@   props C04 C10 C11
 //@   nilrecv
 //@   ensures result == (t != nil && contains(amPkgAtt(t, pkg), attachment))
 //@   assigns nothing
 //@ func AttachmentsMap.HasPkgFunctionAttachment
-//@   props C04 C10
+//@   props C04 C10 C11
 //@   nilrecv
 //@   ensures result == (t != nil && contains(amFuncAtt(t, pkg, funcname), attachment))
 //@   assigns nothing
 //@ func AttachmentsMap.HasPkgTypeAttachment
-//@   props C04 C10
+//@   props C04 C10 C11
 //@   nilrecv
 //@   ensures result == (t != nil && contains(amTypeAtt(t, pkg, typename), attachment))
 //@   assigns nothing
 //@ func AttachmentsMap.HasPkgTypeFieldAttachment
-//@   props C04 C10
+//@   props C04 C10 C11
 //@   nilrecv
 //@   ensures result == (t != nil && contains(amFieldAtt(t, pkg, typename, field), attachment))
 //@   assigns nothing
 //@ func AttachmentsMap.HasPkgTypeMethodAttachment
-//@   props C04 C10
+//@   props C04 C10 C11
 //@   nilrecv
 //@   ensures result == (t != nil && contains(amMethAtt(t, pkg, typename, method), attachment))
 //@   assigns nothing
@@ -362,7 +362,7 @@ package util
 //@   ensures forall u string :: u != typename ==> t.TypesAttachments[u] == old(t.TypesAttachments[u])
 
 //@ func AttachmentsMap.AddPkgTypeAttachment
-//@   props C04 C12 C10
+//@   props C04 C12 C10 C11
 //@   requires amWF(t)
 //@   assigns t.packageAttachments, t.packageAttachments[all], amTA(t, pkg)[all]
 //@   ensures t.packageAttachments != nil && (old(t.packageAttachments) != nil ? t.packageAttachments == old(t.packageAttachments) : fresh(t.packageAttachments))
@@ -382,7 +382,7 @@ package util
 //@   ensures forall p string, u string, m string, x string :: contains(amMethAtt(t, p, u, m), x) <==> contains(old(amMethAtt(t, p, u, m)), x)
 
 //@ func AttachmentsMap.AddPkgFunctionAttachment
-//@   props C04 C12 C10
+//@   props C04 C12 C10 C11
 //@   requires amWF(t)
 //@   assigns t.packageAttachments, t.packageAttachments[all], amFA(t, pkg)[all]
 //@   ensures t.packageAttachments != nil && (old(t.packageAttachments) != nil ? t.packageAttachments == old(t.packageAttachments) : fresh(t.packageAttachments))
@@ -402,7 +402,7 @@ package util
 //@   ensures forall p string, u string, m string, x string :: contains(amMethAtt(t, p, u, m), x) <==> contains(old(amMethAtt(t, p, u, m)), x)
 
 //@ func AttachmentsMap.AddPkgTypeMethodAttachment
-//@   props C04 C12 C10
+//@   props C04 C12 C10 C11
 //@   requires amWF(t)
 //@   assigns t.packageAttachments, t.packageAttachments[all], amTA(t, pkg)[all], amMA(t, pkg, typename)[all]
 //@   ensures t.packageAttachments != nil && (old(t.packageAttachments) != nil ? t.packageAttachments == old(t.packageAttachments) : fresh(t.packageAttachments))
@@ -494,12 +494,12 @@ package util
 //@   assigns t.TypesAttachments, t.TypesAttachments[all], t.TypesAttachments[typename].FieldsAttachments[all]
 //@   ensures t.TypesAttachments != nil
 //@ func AttachmentsMap.AddPkgAttachment
-//@   props C10 C12
+//@   props C10 C12 C11
 //@   requires t.packageAttachments != nil ==> allocated(t.packageAttachments)
 //@   assigns t.packageAttachments, t.packageAttachments[all]
 //@   ensures t.packageAttachments != nil
 //@ func AttachmentsMap.AddPkgTypeFieldAttachment
-//@   props C10 C12
+//@   props C10 C12 C11
 //@   requires t.packageAttachments != nil ==> allocated(t.packageAttachments)
 //@   requires t.packageAttachments[pkg].TypesAttachments != nil ==> allocated(t.packageAttachments[pkg].TypesAttachments)
 //@   requires allocated(t.packageAttachments[pkg].TypesAttachments[typename].FieldsAttachments)
